@@ -37,6 +37,7 @@ type Stats struct {
 
 // Solver drives one long-lived `z3 -in` process. Assertions form a stack (Push/Pop).
 type Solver struct {
+	marker int
 	Ctx     *Ctx
 	cmd     *exec.Cmd
 	in      io.WriteCloser
@@ -179,34 +180,38 @@ func (s *Solver) Check(extra ...*Term) Result {
 }
 
 func (s *Solver) readResult() Result {
+	// every check-sat is followed by an echo of a fresh marker; all lines up to the marker belong to this query.
+	// Any (error ...) line makes the answer inconclusive, and nothing of this query can be left in the pipe for
+	// the next one to read.
+	s.marker++
+	mark := fmt.Sprintf("gosym-sync-%d", s.marker)
+	s.send("(echo \"" + mark + "\")\n")
+	res := Unknown
+	answered, failed := false, false
 	for {
 		l, err := s.readLine()
 		if err != nil {
-			// solver died: restart lazily is complex; report unknown
 			s.dead = true
 			return Unknown
 		}
 		switch {
-		case l == "sat":
-			s.Stats.BySolver["z3-incremental"]++
-			return Sat
-		case l == "unsat":
-			s.Stats.BySolver["z3-incremental"]++
-			return Unsat
-		case l == "unknown" || l == "timeout":
-			return Unknown
-		case strings.HasPrefix(l, "(error"):
-			fmt.Fprintln(os.Stderr, "smt: solver error:", l)
-			// an (error ...) makes the answer inconclusive; still need to consume the check-sat answer if any
-			if strings.Contains(l, "check-sat") {
+		case l == mark || l == "\""+mark+"\"":
+			if failed || !answered {
 				return Unknown
 			}
-			// keep reading: the answer to check-sat follows but is not to be trusted
-			l2, _ := s.readLine()
-			_ = l2
-			return Unknown
-		case l == "":
-			continue
+			if res != Unknown {
+				s.Stats.BySolver["z3-incremental"]++
+			}
+			return res
+		case l == "sat":
+			res, answered = Sat, true
+		case l == "unsat":
+			res, answered = Unsat, true
+		case l == "unknown" || l == "timeout":
+			res, answered = Unknown, true
+		case strings.HasPrefix(l, "(error"):
+			fmt.Fprintln(os.Stderr, "smt: solver error:", l)
+			failed = true
 		}
 	}
 }
